@@ -69,7 +69,7 @@ class Number(Parseable[int]):
 
     """
 
-    _num_pattern = re.compile(br'^\d+$')
+    _num_pattern = re.compile(br'^\d{1,20}$')
 
     __slots__ = ['num', '_raw']
 
@@ -324,7 +324,7 @@ class LiteralString(String):
 
     """
 
-    _literal_pattern = re.compile(br'(~?){(\d+)(\+?)}\r?\n')
+    _literal_pattern = re.compile(br'(~?){(\d{1,20})(\+?)}\r?\n')
 
     __slots__ = ['_string', '_length', '_binary', '_raw']
 
